@@ -85,7 +85,9 @@ def run(tier):
                                  "the independent decode of every journal the tools wrote for the mandatory + sampled scenarios (debugfs jo/jw/jc with escaped blocks, "
                                  "full / overflowing descriptor and revoke blocks, csum v1/v2/v3, 32/64-bit tags, recovery by e2fsck and debugfs jr). "
                                  "(b) see clauses_a_b and b_*." % ev.cov["crc_max_len"])
-        ev.cov["rule"] = "one evaluation = one (algorithm, seed, length, alignment, pattern) CRC input; all are non-trivial; distinct by input"
+        ev.cov["rule"] = ("one evaluation = one (algorithm, seed, length, alignment, pattern) CRC input, one tool-produced image (profile or geometry, operation), "
+                          "one tool-written journal (scenario of CsumUniverse) or one byte flip; non-trivial = CRC inputs, images, journals, and flips that carry an "
+                          "obligation (covered byte, stored checksum stale); distinct by input / (image, operation) / scenario / (image, object, offset)")
         ev.assumptions = ["CRC reference limited to short buffers (<= 64 bytes); the slice-by-8 main loop on long buffers is exercised only through clause (a) against the reader's own python CRC",
                           "debugfs journal writer: one jw per jo .. jc session (what every in-tree user does; the writer guesses the end of a transaction, a second jw in the same session may overwrite the first commit block -- not a checksum matter)",
                           "journals: internal journal inode only; block numbers below 2^32 (t_blocknr_high is 0 on the small images)",
